@@ -9,7 +9,12 @@ for NAME in "$@"; do
   S=$(mktemp -d /tmp/suiterepo_XXXX)
   rsync -a --exclude .git --exclude '*.log' --exclude __pycache__ /repo/ "$S/"
   ( cd "$S" && git init -q . && git apply --whitespace=nowarn "$DEST/patch.diff" ) || { echo "$NAME: patch does not apply"; rm -rf "$S"; continue; }
-  ( cd "$S" && PYTHONPATH="$S/src:$S" timeout 3000 /venv/bin/python -m pytest -ra -q -p no:cacheprovider --timeout=900 --continue-on-collection-errors > "$S/suite.log" 2>&1 )
+  if [ "${NETNS:-0}" = 1 ]; then
+    # private network namespace (loopback + multicast route): several suites can run side by side
+    unshare -n bash -c "ip link set lo up; ip route add 224.0.0.0/4 dev lo 2>/dev/null; cd '$S' && PYTHONPATH='$S/src:$S' timeout 3000 /venv/bin/python -m pytest -ra -q -p no:cacheprovider --timeout=900 --continue-on-collection-errors > '$S/suite.log' 2>&1"
+  else
+    ( cd "$S" && PYTHONPATH="$S/src:$S" timeout 3000 /venv/bin/python -m pytest -ra -q -p no:cacheprovider --timeout=900 --continue-on-collection-errors > "$S/suite.log" 2>&1 )
+  fi
   RC=$?
   SUMMARY=$(grep -E "^[0-9]+ (passed|failed)|passed|failed" "$S/suite.log" | tail -1 | sed 's/"/\\"/g' | cut -c1-200)
   FAILED=$(grep -E "^(FAILED|ERROR) tests/" "$S/suite.log" | cut -c1-160 | head -10 | python3 -c "import sys,json; print(json.dumps([l.strip() for l in sys.stdin]))")
